@@ -181,7 +181,8 @@ def check_slicing(ctx):
     for rid, r in cfg.returns():
         if not cfg.all_paths_pass(cfg.entry, rid, writes):
             ok = False
-    ctx.ob('R4', fi, 'new.metadata = ...', ok if writes else False, 'metadata set on every path to the return' if (ok and writes) else
+    indirect = any(isinstance(n_, ast.Call) and norm_text(n_.func).split('.')[-1] in ('setattr', '__setattr__', 'update', 'replace') for n_ in ast.walk(fi.node))
+    ctx.ob('R4', fi, 'new.metadata = ...', ok if writes else (None if indirect else False), 'metadata set on every path to the return' if (ok and writes) else
            'a sliced trajectory can be returned without metadata')
     sup = [n for n in ast.walk(fi.node) if isinstance(n, ast.Call) and norm_text(n.func).replace(' ', '') == 'super().__getitem__']
     ctx.ob('R4', fi, 'super().__getitem__(frames)', True if sup else None, 'slicing delegated to pymatgen (copies the selected frames)')
